@@ -116,7 +116,7 @@ func C16() *check.Property {
 			"(TERMINAL-PROPAGATION, DEAD-EMISSION, NO-EMIT-UNDER-TEARDOWN-LOCK); (periodic sources count per subscription) the counters of Interval/Timer are per-subscription state (STATE-LEVEL); (Timeout) the watchdog timer is stopped before every forward and re-armed after a value (WATCHDOG-REARM).",
 		NotDecided:  "every lower bound on time, every per-window / per-tick count, that a value is never emitted early or late, that throttling/sampling pick the right value, Timeout's quiet period; the duration handed to the timer primitives (any larger or scaled operand keeps the lower bounds, so no exact rule exists — DESIGN.md section 5).",
 		Assumptions: []string{"time.Timer/Ticker/AfterFunc semantics", "C03 (teardown runs once) and C01 (a closed subscriber drops late notifications: a timer that fires after the terminal is harmless)"},
-		Floors:      map[string]int{"acquisitions": 150, "ctx_watch_selects": 4, "ctx_done_cases": 5, "queue_head_reads": 15, "complete_slots_checked": 120},
+		Floors:      map[string]int{"acquisitions": 150, "ctx_watch_selects": 4, "ctx_done_cases": 5, "queue_head_reads": 15, "complete_slots_checked": 120, "timer_resets": 1},
 		Controls: map[string]string{"zz_verif_controls_c03.go": roControl(controlsC03 + controlsC03b), "zz_verif_controls_c05.go": roControl(controlsC05),
 			"zz_verif_controls_c04.go": roControl(controlsC04), "zz_verif_controls_c06.go": roControl(controlsC06), "zz_verif_controls_c09.go": roControl(controlsC09 + controlsC09b), "zz_verif_controls_c12.go": roControl(controlsC12 + controlsNoHotInCold), "zz_verif_controls_c16.go": roControl(controlsTimerReset)},
 	}
